@@ -159,3 +159,34 @@ Theorem C18_retry_monotone_refuted :
     new_ff64 maxr conf3 relay ans3 (set_starting_fee_rate [stored2]) = Ok f2 /\
     0 < r1 <= maxr /\ relay <= ff_cur f2 /\ ff_cur f2 < r1 /\ ff_cur f2 < Z.min r1 maxr.
 Proof. exact c18_retry_monotone_refuted. Qed.
+
+(* CPFP inputs (input.UnconfParent() <> nil, e.g. the anchor of a still
+   unconfirmed commitment tx): the fee of every tx the TxPublisher builds
+   (prepareSweepTx: estimator.fee()) is the fee of the offered rate on the
+   CHILD's weight alone, for ANY parents - so a rate within MaxFeeRate gives a
+   fee within MaxFeeRate * weight, exactly as for parentless inputs *)
+Theorem C18_cpfp_publisher_fee : forall rate maxr w ps,
+  0 <= rate <= maxr -> maxr <= RMAX -> 0 <= w < WMAX ->
+  prepare_fee rate w ps = fee_for_weight rate w /\
+  0 <= prepare_fee rate w ps <= fee_for_weight maxr w.
+Proof. exact c18_cpfp_publisher_fee. Qed.
+
+(* weightEstimator.feeWithParent (used by walletsweep's createSweepTx only): with
+   a configured max fee rate it is clamped to maxFeeRate * childWeight and is at
+   least the child's own fee, for any parent fee / weight *)
+Theorem C18_fee_with_parent_clamped : forall rate maxr w pf pw,
+  maxr <> 0 ->
+  west_fee_with_parent rate maxr w pf pw <= west_fee maxr w /\
+  (west_fee rate w <= west_fee maxr w -> west_fee rate w <= west_fee_with_parent rate maxr w pf pw).
+Proof. exact c18_fee_with_parent_clamped. Qed.
+
+(* without the clamp (maxFeeRate 0 - how prepareSweepTx builds its estimator)
+   feeWithParent exceeds the cap although the offered rate is within it: the
+   publisher must not use it (witness of seeded change C18-5) *)
+Theorem C18_fee_with_parent_unclamped_refuted :
+  exists rate maxr w p,
+    0 <= rate <= maxr /\
+    let '(pf, pw) := add_parents rate [Some p] [] 0 0 in
+    prepare_fee rate w [Some p] <= west_fee maxr w /\
+    west_fee maxr w < west_fee_with_parent rate 0 w pf pw.
+Proof. exact c18_fee_with_parent_unclamped_refuted. Qed.
